@@ -71,9 +71,15 @@ namespace pika::detail {
             if (!try_recursive_lock(ctx))
             {
                 mtx.lock();
+#if defined(PIKA_VERIF)
+                PIKA_VERIF_POINT(622, this);    // before publishing the owning context
+#endif
                 locking_context.exchange(ctx);
                 pika::util::ignore_lock(&mtx);
                 pika::util::register_lock(this);
+#if defined(PIKA_VERIF)
+                PIKA_VERIF_POINT(623, this);    // before recursion_count.store(1)
+#endif
                 recursion_count.store(1);
             }
         }
@@ -85,8 +91,14 @@ namespace pika::detail {
         ///         outside of a pika-thread.
         void unlock()
         {
+#if defined(PIKA_VERIF)
+            PIKA_VERIF_POINT(624, this);    // before --recursion_count
+#endif
             if (0 == --recursion_count)
             {
+#if defined(PIKA_VERIF)
+                PIKA_VERIF_POINT(625, this);    // before clearing the owning context
+#endif
                 locking_context.exchange(pika::execution::detail::agent_ref());
                 pika::util::unregister_lock(this);
                 pika::util::reset_ignored(&mtx);
@@ -97,8 +109,14 @@ namespace pika::detail {
     private:
         bool try_recursive_lock(pika::execution::detail::agent_ref current_context)
         {
+#if defined(PIKA_VERIF)
+            PIKA_VERIF_POINT(620, this);    // before loading the owning context
+#endif
             if (locking_context.load(std::memory_order_acquire) == current_context)
             {
+#if defined(PIKA_VERIF)
+                PIKA_VERIF_POINT(621, this);    // before ++recursion_count
+#endif
                 if (++recursion_count == 1) pika::util::register_lock(this);
                 return true;
             }
@@ -109,9 +127,15 @@ namespace pika::detail {
         {
             if (mtx.try_lock())
             {
+#if defined(PIKA_VERIF)
+                PIKA_VERIF_POINT(622, this);    // before publishing the owning context
+#endif
                 locking_context.exchange(current_context);
                 pika::util::ignore_lock(&mtx);
                 pika::util::register_lock(this);
+#if defined(PIKA_VERIF)
+                PIKA_VERIF_POINT(623, this);    // before recursion_count.store(1)
+#endif
                 recursion_count.store(1);
                 return true;
             }
